@@ -12,7 +12,7 @@ import (
 
 func init() {
 	core.Register(&core.Property{
-		ID: "C03",
+		ID:   "C03",
 		Rule: "exported functions: EncryptFRMPayload on every length 0..255 and EncryptFOpts on every length 0..32 x both directions x aFCntDown x seeded keys/DevAddr/32-bit counters (boundary counters included); PHYPayload methods: generated frames with FPort absent/0/>0, up/down, MAC-command or raw FOpts incl. over-long (16..40 byte) FOpts. Oracle: independent keystream S_i = AES(K, A_i) built from the spec text; output must equal plaintext XOR keystream, keep its length, be an involution, and every call must either transform or return an error. Distinct = (entry point, direction, length, aFCntDown / FPort kind).",
 		Assumptions: []string{
 			"crypto/aes of the Go standard library is trusted",
@@ -45,7 +45,9 @@ func runC03(c *core.Ctx) {
 			var out []byte
 			var err error
 			c.Eval(1)
-			if p, msg := core.Guard(func() { out, err = lorawan.EncryptFRMPayload(lorawan.AES128Key(key), up, lorawan.DevAddr(da), fcnt, in) }); p || err != nil {
+			if p, msg := core.Guard(func() {
+				out, err = lorawan.EncryptFRMPayload(lorawan.AES128Key(key), up, lorawan.DevAddr(da), fcnt, in)
+			}); p || err != nil {
 				c.Violate("C03|func|EncryptFRMPayload|failed", "len=%d: %v %s", ln, err, msg)
 				continue
 			}
@@ -92,7 +94,9 @@ func runC03(c *core.Ctx) {
 				var out []byte
 				var err error
 				c.Eval(1)
-				if p, msg := core.Guard(func() { out, err = lorawan.EncryptFOpts(lorawan.AES128Key(key), afd, up, lorawan.DevAddr(da), fcnt, in) }); p {
+				if p, msg := core.Guard(func() {
+					out, err = lorawan.EncryptFOpts(lorawan.AES128Key(key), afd, up, lorawan.DevAddr(da), fcnt, in)
+				}); p {
 					c.Violate("C03|func|EncryptFOpts|panic", "len=%d: %s", ln, msg)
 					continue
 				}
